@@ -8,18 +8,23 @@ EXTENDS Array3DLaws
 
 CONSTANT K
 VARIABLE hist
-varsH == <<arr, made, last, hist>>
+varsH == <<arr, made, extmem, last, hist>>
 
 
-Mutators == {"New", "Set", "Clear"}
+Mutators == {"New", "Set", "Clear", "Poke"}
 InitH == Init /\ hist = <<>>
 \* the reading actions change neither arr nor hist (their results are functions of arr that
 \* the invariants below state for every reached arr), so only the mutators are explored here
 NextH == NextMut /\ hist' = Append(hist, [a |-> last'.a, arg |-> last'.arg])
 SpecH == InitH /\ [][NextH]_varsH
 
-Writes(c)  == {i \in DOMAIN hist : hist[i].a = "Clear" \/ (hist[i].a = "Set" /\ hist[i].arg.c = c)}
-InitialAt(c) == IF hist[1].arg.mode = "own" THEN OwnInit ELSE ExtInit(Rank3(hist[1].arg.d, c) + 1)
+\* the rank of c in flattened order (IndexMapsMC: LongIndex(c, d) = Rank3(d, c) for every extent; the formula is cheaper here)
+FlatRank(c) == LongIndex(c, hist[1].arg.d)
+\* a write to the external memory at offset o is a write to the cell whose rank in flattened order is o
+Writes(c)  == {i \in DOMAIN hist : \/ hist[i].a = "Clear"
+                                     \/ (hist[i].a = "Set" /\ hist[i].arg.c = c)
+                                     \/ (hist[i].a = "Poke" /\ hist[i].arg.o = FlatRank(c))}
+InitialAt(c) == IF hist[1].arg.mode = "own" THEN OwnInit ELSE ExtInit(FlatRank(c) + 1)
 LastSet(c) == IF Writes(c) = {} THEN InitialAt(c) ELSE hist[SetMax(Writes(c))].arg.v
 
 \* get(c) returns the value last set at c - for every coordinate, clamped when outside
@@ -27,5 +32,5 @@ AgreesWithHistory ==
   made => /\ arr.size = hist[1].arg.d
           /\ \A c \in Window(arr.size) : ActualGet(arr, c) = LastSet(ClampC(c, arr.size))
 HistBound == Len(hist) <= K
-MCView == <<arr, made, hist>>
+MCView == <<arr, made, extmem, hist>>
 ===============================================================================
